@@ -37,12 +37,15 @@ def standins(tier, seed):
                 dict(p=1, q=1, r=0, exhaustive=True, max_cases=150), dict(p=3, grade_blocks=True, random=3),
                 dict(p=4, grade_blocks=True, random=2), dict(p=3, q=0, r=1, grade_blocks=True, random=2), dict(p=5, random=3, wide=True),
                 dict(p=6, high_grades=True), dict(p=4, q=2, r=1, high_grades=True),       # grades 5, 6, 7: reversion sign is grade % 4 (seeded change C06l)
+                dict(name='2DPGA', grade_blocks=True, random=3, default_twin=True),       # custom basis after its default-basis twin in one process (seeded change C06n)
+                dict(p=3, basis=['e', 'e1', 'e2', 'e3', 'e12', 'e31', 'e23', 'e123'], grade_blocks=True, random=2, default_twin=True),
                 dict(p=2, start_index=10, exhaustive=True, max_cases=150), dict(signature=[1, -1, 1], start_index=9, grade_blocks=True, random=3)]      # blade names with hex letters: symbols aa, ab, aab, ..
     else:
         cfgs = [dict(p=1, exhaustive=True), dict(q=1, exhaustive=True), dict(r=1, exhaustive=True)] + \
             [dict(p=p, q=q, r=2 - p - q, exhaustive=True, max_cases=1500) for p in range(3) for q in range(3 - p)] + \
             [dict(p=2, q=0, r=1, grade_blocks=True, random=30), dict(p=3, grade_blocks=True, random=20), dict(p=3, q=0, r=1, grade_blocks=True, random=10),
-             dict(p=2, q=2, grade_blocks=True, random=8), dict(p=4, q=1, grade_blocks=False, random=6, wide=True), dict(name='3DPGA', random=6),
+             dict(p=2, q=2, grade_blocks=True, random=8), dict(p=4, q=1, grade_blocks=False, random=6, wide=True), dict(name='3DPGA', random=6, default_twin=True), dict(name='2DPGA', grade_blocks=True, random=10, default_twin=True),
+             dict(p=3, basis=['e', 'e1', 'e2', 'e3', 'e12', 'e31', 'e23', 'e123'], grade_blocks=True, random=6, default_twin=True),
              dict(p=6, high_grades=True), dict(p=3, q=3, high_grades=True), dict(p=5, q=0, r=1, high_grades=True), dict(p=7, high_grades=True), dict(p=4, q=2, r=1, high_grades=True)]
     return [{'name': f'compose#{i}', 'bound': 'ordered key-tuple pairs: exhaustive d<=1 (d=2 sampled 1500 per signature in thorough), grade blocks and seeded random patterns d<=5; polynomial coefficients',
              'job': {'kind': 'compose', 'module': 'standins.jobs5', 'configs': [c], 'seed': seed + i}} for i, c in enumerate(cfgs)]
